@@ -201,6 +201,19 @@ CLAIMED = {
         "every step; oracle: locality, no-op on rejection, nonce and subject of recorded data.",
    note="Validity of the ID tokens themselves is C08; logout bookkeeping (sid) and the composite RPHandler.finalize are checked by the oracle only.",
    technique="Lean 4 proof (invariant by induction over operation histories of a state-store model) + history correspondence with per-step store dump", ref="6 C09"),
+ "C12": dict(
+   text="Lean theorems over the whole (finite) cell type of the configuration product — 73 728 cells: every cell whose response placement is "
+        "defined completes whatever the other nine dimensions are (supported_cells_complete); a flow is refused exactly for the two "
+        "response_type x response_mode conflicts (refused_iff), one required by the specification, one not (code_fragment_refused, a known "
+        "finding); what a completed flow consists of — calls in order, artefacts, ID-token encryption, refresh token only with offline access "
+        "(completed_flow_shape); the sub views agree (C18). Tie: real StandAloneClient against real provider in one process with discovery and "
+        "dynamic registration; pairwise covering array + every value on the base shape (quick), thousands of random cells (thorough); per cell "
+        "the placement, call sequence and artefacts are compared with the model; oracle: the flow completes and client / sub / scope / nonce / "
+        "expiry agree between the RP, the provider's session, the token response, the JWT access token, introspection and userinfo.",
+   note="PARTIAL by construction: the theorems are about protocol and negotiation logic; that the serialisers and JOSE layers of both halves agree in a cell is "
+        "observed for the cells run (the evidence says how many of the product), not proved. Token-bearing response types are outside the product (the RP does not "
+        "advertise them).",
+   technique="Lean 4 proof over the finite cell type (case analysis, no sampling) + in-process RP<->OP correspondence with cross-view oracle", ref="6 C12"),
 }
 NOT_YET = {}
 ALL = [f"C{i:02d}" for i in range(1, 21)]
